@@ -2,6 +2,10 @@
 //! (the crate itself is `no_std`; the harness around it uses std).
 #[path = "../../common/ints.rs"]
 mod ints;
+#[path = "../../common/rt.rs"]
+mod rt;
+
+pub fn c18_extra(_chk: &Check, _tier: Tier, _heavy: &std::sync::atomic::AtomicU64) {}
 
 use xs::{Check, Tier};
 
@@ -30,6 +34,12 @@ fn main() {
         "C05" => {
             let chk = Check::new("C05", PART, tier, "exploration");
             ints::run_c05(&chk, tier);
+            chk.finish()
+        }
+        "C18" => {
+            let part = if cfg!(debug_assertions) { "nostd-debug" } else { PART };
+            let chk = Check::new("C18", part, tier, "exploration");
+            rt::run_c18(&chk, tier);
             chk.finish()
         }
         other => {
